@@ -590,6 +590,42 @@ class _Misc(ast.NodeTransformer):
             stmts = new_stmts
         out = []
         for st in stmts:
+            # d.update({"a": x, "b": y})  ->  d["a"] = x; d["b"] = y
+            if isinstance(st, ast.Expr) and isinstance(st.value, ast.Call) and isinstance(st.value.func, ast.Attribute) and st.value.func.attr == "update" and len(st.value.args) == 1 and not st.value.keywords and isinstance(st.value.args[0], ast.Dict) and st.value.args[0].keys and all(isinstance(k, ast.Constant) for k in st.value.args[0].keys):
+                recv = st.value.func.value
+                for k, v in zip(st.value.args[0].keys, st.value.args[0].values):
+                    a = ast.Assign(targets=[ast.Subscript(value=_copy(recv), slice=ast.Constant(value=k.value), ctx=ast.Store())], value=v)
+                    ast.copy_location(a, st)
+                    ast.fix_missing_locations(a)
+                    out.append(a)
+                self.log.append(f"update({{...}}) split {self.modname}:{st.lineno}")
+                continue
+            # if (m := f(x)) is None: ...   ->   m = f(x); if m is None: ...
+            if isinstance(st, (ast.If, ast.While)) is False and False:
+                pass
+            if isinstance(st, ast.If):
+                t = st.test
+                inner = t.operand if isinstance(t, ast.UnaryOp) and isinstance(t.op, ast.Not) else t
+                ne = None
+                if isinstance(inner, ast.NamedExpr):
+                    ne = inner
+                elif isinstance(inner, ast.Compare) and isinstance(inner.left, ast.NamedExpr):
+                    ne = inner.left
+                if ne is not None and isinstance(ne.target, ast.Name):
+                    a = ast.Assign(targets=[ast.Name(id=ne.target.id, ctx=ast.Store())], value=ne.value)
+                    ast.copy_location(a, st)
+                    ast.fix_missing_locations(a)
+                    out.append(a)
+                    name = ast.Name(id=ne.target.id, ctx=ast.Load())
+                    if inner is ne:
+                        if inner is t:
+                            st.test = name
+                        else:
+                            t.operand = name
+                    else:
+                        inner.left = name
+                    ast.fix_missing_locations(st)
+                    self.log.append(f"walrus hoisted {self.modname}:{st.lineno}")
             if isinstance(st, ast.Expr) and isinstance(st.value, ast.Call) and isinstance(st.value.func, ast.Name) and st.value.func.id == "setattr" and len(st.value.args) == 3 and isinstance(st.value.args[1], ast.Constant) and isinstance(st.value.args[1].value, str) and st.value.args[1].value.isidentifier():
                 a = st.value.args
                 out.append(ast.copy_location(ast.Assign(targets=[ast.Attribute(value=a[0], attr=a[1].value, ctx=ast.Store())], value=a[2]), st))
@@ -744,11 +780,97 @@ def rows_comprehension_to_loop(fn, log=None, where=""):
     return changed
 
 
+def _namedtuple_classes(tree):
+    out = {}
+    for st in tree.body:
+        if isinstance(st, ast.ClassDef) and any(ast.unparse(b) in ("NamedTuple", "typing.NamedTuple") for b in st.bases):
+            out[st.name] = [x.target.id for x in st.body if isinstance(x, ast.AnnAssign) and isinstance(x.target, ast.Name)]
+    return out
+
+
+def namedtuple_fields(modules, log):
+    """r = Row(*row[:4]) ... r.start   ->   row[1]      /     t = T(a=x, b=y) ... t.b  ->  y
+    (records of a NamedTuple class defined in the package, bound once in the function, read by field name;
+    also for a loop variable ranging over a generator function of the package whose yields are all such records)"""
+    classes = {}
+    for mi in modules.values():
+        for k, v in _namedtuple_classes(mi.tree).items():
+            classes[k] = v
+    if not classes:
+        return
+    # generator functions whose every yield is Cls(...)
+    gen_records = {}
+    for mi in modules.values():
+        for fn in [n for n in ast.walk(mi.tree) if isinstance(n, (ast.FunctionDef, ast.AsyncFunctionDef))]:
+            ys = [n for n in ast.walk(fn) if isinstance(n, ast.Yield)]
+            if ys and all(isinstance(y.value, ast.Call) and isinstance(y.value.func, ast.Name) and y.value.func.id in classes for y in ys) and len({y.value.func.id for y in ys}) == 1:
+                gen_records[fn.name] = ys[0].value.func.id
+                # the generator now yields plain tuples in field order
+                for y in ys:
+                    c = y.value
+                    fields = classes[c.func.id]
+                    vals = list(c.args) + [None] * (len(fields) - len(c.args))
+                    for k in c.keywords:
+                        if k.arg in fields:
+                            vals[fields.index(k.arg)] = k.value
+                    if all(v is not None for v in vals) and not any(isinstance(a, ast.Starred) for a in c.args):
+                        y.value = ast.copy_location(ast.Tuple(elts=vals, ctx=ast.Load()), c)
+                        log.append(f"namedtuple yield {mi.name}:{c.lineno} {c.func.id}(...) -> tuple")
+    for mi in modules.values():
+        for fn in [n for n in ast.walk(mi.tree) if isinstance(n, (ast.FunctionDef, ast.AsyncFunctionDef))]:
+            binds = {}  # var -> (class, value exprs per field | sequence expr)
+            stores = {}
+            for n in ast.walk(fn):
+                if isinstance(n, ast.Name) and isinstance(n.ctx, ast.Store):
+                    stores[n.id] = stores.get(n.id, 0) + 1
+            for n in ast.walk(fn):
+                if isinstance(n, ast.Assign) and len(n.targets) == 1 and isinstance(n.targets[0], ast.Name) and isinstance(n.value, ast.Call) and isinstance(n.value.func, ast.Name) and n.value.func.id in classes and stores.get(n.targets[0].id) == 1:
+                    c = n.value
+                    fields = classes[c.func.id]
+                    if len(c.args) == 1 and isinstance(c.args[0], ast.Starred) and not c.keywords:
+                        seq = c.args[0].value
+                        if isinstance(seq, ast.Subscript) and isinstance(seq.slice, ast.Slice) and seq.slice.lower is None and seq.slice.step is None:
+                            seq = seq.value
+                        if isinstance(seq, ast.Name):
+                            binds[n.targets[0].id] = {f: ast.Subscript(value=ast.Name(id=seq.id, ctx=ast.Load()), slice=ast.Constant(value=i), ctx=ast.Load()) for i, f in enumerate(fields)}
+                    elif not any(isinstance(a, ast.Starred) for a in c.args):
+                        vals = dict(zip(fields, c.args))
+                        for k in c.keywords:
+                            if k.arg:
+                                vals[k.arg] = k.value
+                        if set(vals) == set(fields) and all(isinstance(v, (ast.Name, ast.Constant, ast.Attribute, ast.Subscript)) for v in vals.values()):
+                            binds[n.targets[0].id] = vals
+                # for rec in gen(...):  rec.field -> rec[i]
+                tgt_iter = []
+                if isinstance(n, ast.For):
+                    tgt_iter.append((n.target, n.iter))
+                elif isinstance(n, (ast.ListComp, ast.GeneratorExp, ast.SetComp, ast.DictComp)):
+                    tgt_iter += [(g.target, g.iter) for g in n.generators]
+                for t, it in tgt_iter:
+                    if isinstance(t, ast.Name) and isinstance(it, ast.Call) and isinstance(it.func, ast.Name) and it.func.id in gen_records:
+                        fields = classes[gen_records[it.func.id]]
+                        binds[t.id] = {f: ast.Subscript(value=ast.Name(id=t.id, ctx=ast.Load()), slice=ast.Constant(value=i), ctx=ast.Load()) for i, f in enumerate(fields)}
+            if not binds:
+                continue
+
+            class R(ast.NodeTransformer):
+                def visit_Attribute(self, n):
+                    self.generic_visit(n)
+                    if isinstance(n.ctx, ast.Load) and isinstance(n.value, ast.Name) and n.value.id in binds and n.attr in binds[n.value.id]:
+                        return ast.copy_location(_copy(binds[n.value.id][n.attr]), n)
+                    return n
+
+            fn.body = [R().visit(b) for b in fn.body]
+            ast.fix_missing_locations(fn)
+            log.append(f"namedtuple fields {mi.name}:{fn.name} {sorted(binds)}")
+
+
 def run(modules, known_funcs):
     """normalise all module trees in place; returns the list of rewrites performed"""
     log = []
     recover_renames(modules, known_funcs, log)
     inline_constants(modules, log)
+    namedtuple_fields(modules, log)
     for mi in modules.values():
         for _pass in range(2):  # statements produced by one rewrite are themselves rewritten in the second pass
             mi.tree = _Misc(log, mi.name).visit(mi.tree)
